@@ -23,8 +23,17 @@
     search may answer differently; the theorems that use it carry the sortedness hypothesis.)
   * `sort.Search(n, f)` likewise: the least i in [0, n) with f(i), n if there is none; `f` is evaluated
     by a left-to-right scan, so a panic of `f` on an index below the answer is a panic of the search.
+  * SECOND BATCH (text level; the section at the end of this file): a Go string used as bytes is `Str`, a list of
+    integers (a struct field of type string stays a Lean `String`); `[]byte(s)`, `string(b)`, `string(rune)`,
+    `append(b, s...)`, `len`, `s[i]` are defined there; a lossy integer conversion wraps (`Go.wrap`); a slice of structs is
+    an owned Lean list; `utf8.DecodeRune` and the encoding behind `string(rune)` are ASSUMED to be Model/Utf8.lean's
+    transcription of unicode/utf8 (the only import of this file; C09 proves the decoder inverse to the encoder on every
+    scalar value); `bytes.HasPrefix` is "begins with"; `fmt.Sprintf` is the concatenation of the pieces the translator
+    parses the constant format into (%s, %d); the regexp engine and `strconv.UnquoteChar` are NOT given a meaning: they
+    are fields of the world `Ext` that the translated functions take as a parameter.
   Core Lean only.
 -/
+import ParsleyVerif.Model.Utf8
 namespace PV.ProgPrelude
 
 /-- slice header: the elements are `array[off .. off+len)`, the capacity is counted from `off` -/
@@ -223,5 +232,124 @@ def Go.mapEntries (m : Mp) : M (List (Int × Int)) := fun st =>
   match m with
   | none => .ok [] st
   | some i => .ok (mobj st i) st
+
+/-! ### byte strings, conversions, the standard library (second batch: text level) -/
+
+/-- a Go string that is used as bytes (a parameter, a local variable, a result): the list of its bytes.
+    (A struct field of type string — a file name — is a Lean `String`; the translator lets nothing flow between the two.) -/
+abbrev Str := List Int
+
+/-- the bytes of a string constant (Go source text is UTF-8) -/
+def Go.lit (s : String) : Str := s.toUTF8.data.toList.map (fun b => (b.toNat : Int))
+
+/-- `len(s)` of a string -/
+def Go.strLen (s : Str) : Int := s.length
+
+/-- `s[i]` of a string -/
+def Go.strIdx (s : Str) (i : Int) : M Int := fun st =>
+  if 0 ≤ i then
+    match s[i.toNat]? with
+    | some v => .ok v st
+    | none => .panic
+  else .panic
+
+/-- `[]byte(s)`: a fresh array holding the bytes (its capacity is the growth policy's choice, at least the length) -/
+def Go.bytesOf (s : Str) : M Sl := fun st =>
+  let cap' := max (st.grow s.length) s.length
+  .ok { arr := st.arrays.length, off := 0, len := s.length, cap := cap' }
+      { st with arrays := st.arrays ++ [s ++ List.replicate (cap' - s.length) 0] }
+
+/-- `string(b)`: the bytes the slice shows -/
+def Go.strOf (s : Sl) : M Str := fun st => .ok (view st s) st
+
+/-- `string(r)` of a rune: its UTF-8 encoding, "�" for a value that is not a valid rune (utf8.AppendRune;
+    the encoder is Model/Utf8.lean's transcription of unicode/utf8) -/
+def Go.runeStr (c : Int) : Str :=
+  (Utf8.encodeRune (if c < 0 then Utf8.runeError else c.toNat)).map Int.ofNat
+
+/-- `append(s, vs...)`: in place when the capacity suffices, else a fresh array (one growth step) -/
+def Go.appendList (s : Sl) (vs : List Int) : M Sl := fun st =>
+  if vs = [] then .ok s st
+  else if s.len + vs.length ≤ s.cap then
+    .ok { s with len := s.len + vs.length, isNil := false }
+        { st with arrays := st.arrays.modify s.arr (fun c => c.take (s.off + s.len) ++ vs ++ c.drop (s.off + s.len + vs.length)) }
+  else
+    let cap' := max (st.grow s.cap) (s.len + vs.length)
+    .ok { arr := st.arrays.length, off := 0, len := s.len + vs.length, cap := cap' }
+        { st with arrays := st.arrays ++ [view st s ++ vs ++ List.replicate (cap' - (s.len + vs.length)) 0] }
+
+/-- `append(s, t...)` for a slice t -/
+def Go.appendSl (s t : Sl) : M Sl := fun st => Go.appendList s (view st t) st
+
+/-- `append(s, str...)` for a string -/
+def Go.appendStr (s : Sl) (str : Str) : M Sl := Go.appendList s str
+
+/-- an integer conversion that can lose information: the value wraps around into the range of the target type
+    (`bits` wide, two's complement when `signed`) -/
+def Go.wrap (bits : Nat) (signed : Bool) (v : Int) : Int :=
+  if signed then (v + 2 ^ (bits - 1)) % 2 ^ bits - 2 ^ (bits - 1) else v % 2 ^ bits
+
+/-- `bytes.HasPrefix(a, b)`: a begins with b -/
+def Go.hasPrefix (a b : Sl) : M Bool := fun st => .ok ((view st b).isPrefixOf (view st a)) st
+
+/-- `utf8.DecodeRune(p)`: (rune, width) — ASSUMED to be Model/Utf8.lean's transcription of unicode/utf8.DecodeRune
+    (empty: (RuneError, 0); invalid or short: (RuneError, 1)) on the bytes the slice shows -/
+def Go.decodeRune (p : Sl) : M (Int × Int) := fun st =>
+  let rw := Utf8.decodeRune ((view st p).map Int.toNat)
+  .ok ((rw.1 : Int), (rw.2 : Int)) st
+
+/-- the world outside the repository that the translated functions call and the prelude gives no meaning to:
+    every theorem about them holds for every such world, or names the property of it that it needs -/
+structure Ext where
+  /-- `r.getPattern(expr).FindIndex(b)` — the regexp engine on the pattern "^(?:" + expr + ")": none = no match (nil),
+      some (lo, hi) = the two-element result.  (getPattern's own panics — an expression that does not compile or that
+      matches the empty input — are outside: getPattern is not translated.) -/
+  findIndex : Str → List Int → Option (Int × Int)
+  /-- `strconv.UnquoteChar(s, quote)`: none = an error (value 0, multibyte false, tail "" come back with it),
+      some (value, multibyte, tail) -/
+  unquoteChar : Str → Int → Option (Int × Bool × Str)
+
+/-- `r.getPattern(expr).FindIndex(b)`: nil, or a fresh two-element slice -/
+def Go.findIndex (X : Ext) (expr : Str) (b : Sl) : M Sl := fun st =>
+  match X.findIndex expr (view st b) with
+  | none => .ok Go.nilSl st
+  | some (lo, hi) =>
+    .ok { arr := st.arrays.length, off := 0, len := 2, cap := 2 } { st with arrays := st.arrays ++ [[lo, hi]] }
+
+/-- `strconv.UnquoteChar(s, quote)` as (value, multibyte, tail, err) -/
+def Go.unquoteChar (X : Ext) (s : Str) (quote : Int) : M (Int × Bool × Str × Obj) := fun st =>
+  match X.unquoteChar s quote with
+  | none => .ok (0, false, [], Obj.named "strconv.ErrSyntax") st
+  | some (v, mb, tail) => .ok (v, mb, tail, Obj.nil) st
+
+/-! ### owned lists (a slice whose elements are structs) -/
+
+/-- `l[i]` -/
+def Go.listIdx {α : Type} (l : List α) (i : Int) : M α := fun st =>
+  if 0 ≤ i then
+    match l[i.toNat]? with
+    | some v => .ok v st
+    | none => .panic
+  else .panic
+
+/-- `len(l)` -/
+def Go.listLen {α : Type} (l : List α) : Int := l.length
+
+/-! ### fmt.Sprintf: the format is parsed by the translator into pieces -/
+
+inductive Fmt where
+  | lit (s : String)      -- literal text of the format, or a constant argument of %s
+  | text (s : String)     -- %s of a text (a struct field)
+  | bytes (s : Str)       -- %s of a byte string
+  | int (i : Int)         -- %d
+
+def Fmt.out : Fmt → Str
+  | .lit s => Go.lit s
+  | .text s => Go.lit s
+  | .bytes b => b
+  | .int i => Go.lit (toString i)
+
+/-- `fmt.Sprintf(format, args…)` for a constant format of literal text, %s, %d, %% -/
+def Go.sprintf (ps : List Fmt) : Str := ps.flatMap Fmt.out
 
 end PV.ProgPrelude
